@@ -26,6 +26,9 @@ func init() {
 		Title:       "Boolean path operations compute the set algebra of the filled regions",
 		Explanation: "Decides the finite tables of the boolean operations for every input that reaches them: each public wrapper passes the op constant of its name, its own operands and NonZero; SweepPoint.InResult's per-op membership expressions equal the property's truth table over (subject fills, clipping fills) on each side of an edge and an edge is kept iff filling changes; the pathOp switch is exhaustive; bentleyOttmann's four early-outs (Q empty, P empty, disjoint sub-path of P, of Q) keep an operand exactly for the ops whose truth table keeps it. NOT decided: the sweep itself, snap rounding, overlap merging, contour tracing, termination, area laws.",
 		Run: func(c *core.Ctx, r *core.Report) {
+			E9Fills(c, r)
+			E4InsertAlias(c, r, []string{""})
+			E9EndpointPair(c, r)
 			E9OperandListsSeparate(c, r)
 			E9WindingInherited(c, r)
 			E9AdjacentAlwaysTested(c, r)
@@ -48,6 +51,8 @@ func init() {
 		Title:       "Settle preserves the filled region and returns a canonical simple path",
 		Explanation: "Decides: FillRule.Fills is definite on the sign×parity classes of the winding number and equals each rule's definition, with a case for all four rules; the Settle entry points pass nil, opSettle and their own fill rule to the sweep; opSettle membership is the subject's own fill on each side; settling an empty path yields the empty path. NOT decided: canonical form, hole orientation, idempotence, the sweep.",
 		Run: func(c *core.Ctx, r *core.Report) {
+			E11StickyFlag(c, r)
+			E9CopyDropsStatusNode(c, r)
 			E9EndpointPair(c, r)
 			E9WindingInherited(c, r)
 			E9AdjacentAlwaysTested(c, r)
